@@ -1,3 +1,8 @@
 import ReplayModel.Bytes
 import ReplayModel.Bits
 import ReplayModel.Codec
+import ReplayModel.Defs
+import ReplayModel.Frame
+import ReplayModel.World
+import ReplayModel.Play
+import ReplayModel.Generated.Facts
